@@ -265,6 +265,8 @@ def tr(t: list, position: str = "param") -> tuple:
         return mk_union(members)
     if k == "callable":
         r = t[2]
+        while r[0] == "union" and len(r[1]) == 1:  # Union[X] is X for the type checker
+            r = r[1][0]
         if r[0] == "none":
             results: tuple = ()
         elif r[0] == "tuple":
